@@ -296,6 +296,11 @@ def render_decl(d: dict, mod: dict, defined: set) -> str:
         out.append(d["src"])
     else:
         raise ValueError(kind)
+    if d.get("local"):
+        # the class is created inside a function (a factory, a test, a closure) and bound to a
+        # module attribute afterwards: its qualified name does not lead back to it
+        body = ["    " + ln for ln in "\n".join(out).split("\n")]
+        out = [f"def _vw_make_{n}():"] + body + [f"    return {n}", f"{n} = _vw_make_{n}()"]
     return "\n".join(out) + "\n"
 
 
